@@ -468,7 +468,7 @@ func (g *gen) genWithdraw(w *world, s *snap) Op {
 		return Op{Kind: "withdraw", A: g.anyUser(), Coins: one(g.mktDenom(), big.NewInt(5))}
 	}
 	u := us[r.Intn(len(us))]
-	if r.Chance(1, 40) { // possibly somebody without a deposit
+	if r.Chance(1, 20) { // possibly somebody without a deposit
 		u = g.anyUser()
 		if s.dep[u] == nil {
 			g.tag = "no-deposit"
@@ -598,7 +598,7 @@ func (g *gen) genLiquidate(w *world, s *snap) Op {
 		b = over[r.Intn(len(over))]
 	}
 	k := g.anyUser()
-	if r.Chance(1, 10) {
+	if r.Chance(1, 6) {
 		k = b
 	}
 	return Op{Kind: "liquidate", A: k, B: b}
